@@ -90,6 +90,27 @@ def run(tier):
         elif (mm["model"] != real or (lints is not None and mm["lint"] != lints)) and not cid.startswith("o"):
             mism += 1
             ck.violation("tie-broken:correspondence", "model and implementation differ although the specification is met", replay)
+    # "allowed" means allowed all the way: a body the analysis accepts is compiled (every loop at the end of a block,
+    # every naked or braced branch lowered) and the IR is valid - the generator relies on exactly the placement
+    # rules (its `Statement::Loop => unreachable!()`, the end block of an else branch)
+    acc = [(cid, src) for cid, src in srcs if impl.get(cid, ["?"])[0].startswith("ok lints=")]
+    r2 = random.Random(ck.seed + 66)
+    nacc = 500 if tier == "quick" else 30000
+    # the exhaustive small ones first (every shape of <= maxn nodes), then a sample of the rest
+    small = [x for x in acc if x[0].startswith("e")]
+    rest = [x for x in acc if not x[0].startswith("e")]
+    r2.shuffle(rest)
+    chosen = (small + rest)[:nacc] if len(small) <= nacc * 2 // 3 else small[:: max(1, len(small) * 3 // (nacc * 2))][: nacc * 2 // 3] + rest[: nacc // 3]
+    gen = C.run_harness("ir", chosen, ck.work + "/gen", timeout=3000)
+    ngen = 0; gbad = 0
+    for cid, src in chosen:
+        g = gen.get(cid, ["missing"])
+        if g[0].startswith("ok"):
+            ngen += 1
+            continue
+        gbad += 1; mism += 1
+        ck.violation("accepted-not-compiled:" + C.failure_key(g[0]), "a body the placement rules accept is not compiled to valid IR: " + g[0][:200], "source:\n%s\nanalysis: %s\ngeneration: %s" % (src, impl.get(cid, ["?"])[0], g[0][:600]))
+    ck.log("accepted bodies compiled: %d of %d (of %d accepted), %d failures" % (ngen, len(chosen), len(acc), gbad))
     if not proof_ok:
         ck.violation("tie-broken:proof", "Props/C06.v no longer checks", getattr(ck, "proof_output", "")[-2000:])
     ck.coverage.update(
